@@ -55,7 +55,7 @@ def scenario() -> Any:
         d.update({"ends": False, "ack_type": "when_saved", "horizon": HORIZON, "drain": 0.0})
         return d
 
-    msg = cm.message(kinds=("async",), outs=("ret", "ret", "ValueError"), acks=("sync", "sync", "async", "future"),
+    msg = cm.message(kinds=("async",), outs=("ret", "ret", "ValueError"), acks=("sync", "sync", "async", "future", "deferred"),
                      durs=(0.0, 0.05, 0.3, 1.0, 4.0, "never"), at=cm.times(60), cleanups=(0, 0, 0, 0.2), timeouts=(None, None, None, 0.3))
     return st.fixed_dictionaries({
         "A": st.integers(1, 3), "P": st.integers(0, 2),
